@@ -2,7 +2,7 @@
 import math, re, struct
 from common import *
 
-ALPHA = ["ro", "theta", "Theta", "RO", "i", "pi", "PI", "sin", "Cos", "X", "a-b", "q0"]
+ALPHA = ["ro", "theta", "Theta", "RO", "i", "pi", "PI", "sin", "Cos", "X", "a-b", "q0", "EXTERN"]
 STRINGS = ["a", "(x : INTEGER)"]
 
 
